@@ -28,6 +28,29 @@ pub fn name_pool() -> Vec<(&'static str, Shape)> {
     ]
 }
 
+/// the pool of C03: versions on one track differ in what they offer (so that sharing has to
+/// produce the union), and there are names on different tracks
+pub fn name_pool_c03() -> Vec<(&'static str, Shape)> {
+    let a = || Shape::inst(&[("a", Shape::F0)]);
+    let ab = || Shape::inst(&[("a", Shape::F0), ("b", Shape::F0)]);
+    let ac = || Shape::inst(&[("a", Shape::F0), ("c", Shape::F1)]);
+    vec![
+        ("f", Shape::F0),
+        ("g", Shape::F0),
+        ("i", a()),
+        ("test:p/i@1.0.0", a()),
+        ("test:p/i@1.2.0", ab()),
+        ("test:p/i@1.3.1", ac()),
+        ("test:p/i@2.0.0", a()),
+        ("test:q/j@0.2.0", a()),
+        ("test:q/j@0.2.5", ab()),
+        ("test:q/j@0.3.0", a()),
+        ("test:r/k", Shape::inst(&[("a", Shape::F0), ("h", Shape::F1)])),
+        ("test:r/k@0.0.3", a()),
+        ("test:r/k@0.0.4", a()),
+    ]
+}
+
 /// extra export-only names
 pub fn export_pool() -> Vec<(&'static str, Shape)> {
     let a = || Shape::inst(&[("a", Shape::F0)]);
@@ -74,8 +97,11 @@ pub const WIT_WORLDS: &[&str] = &["producer", "consumer", "both", "deep", "resy"
 
 /// the library of one run: WAT packages drawn from the pools + the WIT worlds
 pub fn build_library(rng: &mut Rng, n_wat: usize, with_wit: bool) -> Vec<LibPkg> {
+    build_library_from(rng, n_wat, with_wit, name_pool())
+}
+
+pub fn build_library_from(rng: &mut Rng, n_wat: usize, with_wit: bool, imports: Vec<(&'static str, Shape)>) -> Vec<LibPkg> {
     let mut lib = Vec::new();
-    let imports = name_pool();
     let exports = export_pool();
     for i in 0..n_wat {
         let mut imps: Vec<(String, Shape)> = Vec::new();
@@ -165,6 +191,10 @@ fn reaches(g: &CompositionGraph, from: NodeId, to: NodeId) -> bool {
         }
     }
     false
+}
+
+pub fn reaches_pub(g: &CompositionGraph, from: NodeId, to: NodeId) -> bool {
+    reaches(g, from, to)
 }
 
 fn live_nodes(g: &CompositionGraph) -> Vec<NodeId> {
